@@ -188,9 +188,17 @@ def c49(ctx):
     n = 60 if ctx.quick else 600
     jobs = []
     for _ in range(n):
-        ps = rng.choice(["ro", "none", "rw+ro", "ro+rw", "rw"])
+        ps = rng.choice(["ro", "none", "rw+ro", "ro+rw", "rw", "wo", "rw+wo"])
         stackok = rng.random() < 0.8
         prog = G.gen_prog(rng, mem=True)
+        if rng.random() < 0.3:
+            # an instruction that loads AND stores, on a page where only one of the two is allowed
+            cand = [i for i, x in enumerate(prog) if x["k"] in ("RT", "PU", "ST", "ST4", "LD")]
+            if cand:
+                prog[rng.choice(cand)] = rng.choice([{"k": "PUM", "a": G.P1}, {"k": "PUM", "a": G.P0 + 0xffe}, {"k": "INCM", "a": G.P1 + 1},
+                                                     {"k": "INCM", "a": G.P0 + 1}])
+                ps = rng.choice(["wo", "rw+wo", "ro", "rw", "rw+ro"])
+                stackok = True
         if not G.needs_fault(prog, G.PAGESETS[ps], stackok):
             # (never over a DEC / branch: the loop structure guarantees termination)
             cand = [i for i, x in enumerate(prog) if x["k"] in ("RT", "PU", "ST", "ST4", "LD")]
